@@ -2,6 +2,7 @@ package checks
 
 import (
 	"fmt"
+	"os"
 	"time"
 
 	"verif/harness/vf"
@@ -26,6 +27,9 @@ type famSpec struct {
 // family and emits expectations, every program goes through the real compiler,
 // every case is run on the real runtime and natively, and judged.
 func runFam(c *vf.Check, f famSpec) {
+	if only := os.Getenv("VERIF_ONLY_FAM"); only != "" && only != f.fam { // debugging knob
+		return
+	}
 	calls := tier(c, f.callsQ, f.callsT)
 	budget := f.budget
 	if budget == 0 {
